@@ -535,6 +535,21 @@ def encoder_regions(ctx, prog, f, is16):
             bad = (c, len(adm), want)
         if len(adm) == want and want:
             groups.setdefault(tuple(id(e) for e, _ in adm), (want, c, adm))
+    if is16 and seconds:
+        # the second unit of a pair: the 4-byte stores run exactly for 0xdc00..0xdfff
+        wrong = None
+        for c2 in (0xdbff, 0xdc00, 0xdc01, 0xddff, 0xdffe, 0xdfff, 0xe000, 0x41):
+            env = {cv['id']: 0xd800}
+            for v in seconds:
+                env[v['id']] = c2
+            ev = bounded.Bound(prog, f, env, {})
+            adm = [e for e, k in stores if bounded.admitted(ev, G.of(e), G)]
+            ctx.evaluations += 1
+            want = 4 if 0xdc00 <= c2 <= 0xdfff else 0
+            if len(adm) != want and wrong is None:
+                wrong = (c2, len(adm), want)
+        ctx.check(wrong is None, 'C08.layout', f['pq'], '%s:second surrogate range' % f['n'], fwhere(f), 'pairs accepted exactly for a second unit in 0xdc00..0xdfff',
+                  '%s writes %d byte(s) for the pair (d800, %04x), expected %d: %s' % ((f['q'], wrong[1], wrong[0], wrong[2], 'a valid pair is dropped' if wrong[2] else 'an invalid second unit is accepted') if wrong else (f['q'], 0, 0, 0, '')))
     if bad:
         ctx.violation('C08.layout', f['pq'], role, fwhere(f), '%s writes %d byte(s) for U+%04X, the standard (shortest) UTF-8 form has %d: a branch threshold is off' % (f['q'], bad[1], bad[0], bad[2]))
     else:
